@@ -94,10 +94,15 @@ def explore(tier, seed, model_ok=True, focus=False):
     ex.samples += ex2.samples[:1]
     for k, v in ex2.counters.items():
         ex.counters[k] = ex.counters.get(k, 0) + v
-    return ex
+    from props.farm_locked_common import explore_locked, merge_into, monitors_c06, nontrivial_c06
+    ex3 = explore_locked("C06", tier, seed, monitors_c06, nontrivial_c06, RULE, model_ok, focus, scale=0.5)
+    return merge_into(ex, ex3)
 
 
 def replay(data):
+    if data.get("replay", {}).get("system") == "farm-locked":
+        from props.farm_locked_common import replay_locked, monitors_c06
+        return replay_locked(data, monitors_c06)
     if data.get("replay", {}).get("system") == "staking":
         from props.staking_common import replay_staking, index_monitor
         return replay_staking(data, index_monitor)
